@@ -41,6 +41,7 @@ def render(recipe):
             if f['raises'] == 'always':
                 lines.append('    raise ValueError("exc-" + tag)')
             lines.append('    return "ret-" + tag')
+            d['last'] = len(lines)
             info.append(d)
             continue
         lines.append('def %s(n):' % name)
@@ -88,6 +89,7 @@ def render(recipe):
             lines.append('%sif %s:' % (ind, cond))
             lines.append('%s    raise ValueError("exc-" + tag)' % ind)
         lines.append('%sreturn "ret-" + tag' % ind)
+        d['last'] = len(lines)
         if f['finally']:
             lines.append('    finally:')
             lines.append('        acc.append("fin")')
@@ -126,7 +128,10 @@ class C15(Prop):
         tp = fd({'func': st.integers(0, 3),
                                     'kind': st.sampled_from(['method_span', 'line_span', 'method_capture', 'line_capture',
                                                              'method_capture']),
-                                    'fire_count': st.sampled_from(['1', '-1', '-1'])})
+                                    'fire_count': st.sampled_from(['1', '-1', '-1']),
+                                    # line tracepoints sit on the first line of the function, or on its last one (the
+                                    # return statement: what they opened completes on the same event as the method's)
+                                    'at': st.sampled_from(['work', 'work', 'last'])})
         return fd({
             'funcs': st.lists(func, min_size=1, max_size=4),
             'tps': st.lists(tp, min_size=1, max_size=4),
@@ -151,12 +156,13 @@ class C15(Prop):
             fi = info[tp['func'] % len(info)]
             tid = 'tp%d' % i
             k = tp['kind']
+            at_ = tp.get('at') or 'work'
             base_cfg = {'fire_count': tp['fire_count'], 'fire_period': '0'}
             if k == 'method_span':
                 trig = build_trigger(tid, BASE, -1, dict(base_cfg, span='method', method_name=fi['name'],
                                                          snapshot='no_collect'), [], [])
             elif k == 'line_span':
-                trig = build_trigger(tid, BASE, fi['work'], dict(base_cfg, span='line', snapshot='no_collect'), [], [])
+                trig = build_trigger(tid, BASE, fi[at_], dict(base_cfg, span='line', snapshot='no_collect'), [], [])
             elif k == 'method_capture':
                 act = LocationAction(tid, None, dict(base_cfg, **{STAGE: METHOD_CAPTURE, 'watches': []}),
                                      LocationAction.ActionType.Snapshot)
@@ -164,7 +170,7 @@ class C15(Prop):
             else:
                 act = LocationAction(tid, None, dict(base_cfg, **{STAGE: LINE_CAPTURE, 'watches': []}),
                                      LocationAction.ActionType.Snapshot)
-                trig = Trigger(LineLocation(BASE, fi['work'], Location.Position.CAPTURE), [act])
+                trig = Trigger(LineLocation(BASE, fi[at_], Location.Position.CAPTURE), [act])
             triggers.append(trig)
             tpdefs[tid] = (k, fi)
             if 'capture' in k:
@@ -369,7 +375,11 @@ class C15(Prop):
                     e = possible[-1]
                     r = inv_result.get(e.inv)
                     earlier = inv_seen_exceptions.get(e.inv, [])[:-1]
-                    shape = 'recursion' if sum(1 for x in cands if x.func == e.func) > 1 else \
+                    # (an unwinding frame also delivers a return event; that one can still end an outer level's snapshot)
+                    own_opening = recipe['tps'][int(snap.tracepoint.id[2:])]['fire_count'] == '-1' and \
+                        bool(r) and r[0] == 'return' and not any(f_['raises'] != 'never' for f_ in recipe['funcs'])
+                    shape = ('recursion, although every level opened a snapshot of its own' if own_opening else
+                             'recursion') if sum(1 for x in cands if x.func == e.func) > 1 else \
                         'exception caught inside the invocation' if (r and r[0] == 'return' and w.expression == 'exception') \
                         else 'an exception the invocation caught earlier is captured instead of the one it raised' \
                         if (r and r[0] == 'exception' and w.expression == 'exception' and
@@ -387,7 +397,8 @@ class C15(Prop):
                 continue
             want_event = 'call' if kind == 'method_capture' else 'line'
             hits = [e for e in ip.events if e.base == BASE and e.event == want_event and e.func == fi['name'] and
-                    (kind == 'method_capture' or e.line == fi['work']) and (not reconf_at or e.idx < reconf_at[0])]
+                    (kind == 'method_capture' or e.line == fi[recipe['tps'][int(tid[2:])].get('at') or 'work']) and
+                    (not reconf_at or e.idx < reconf_at[0])]
             tp = [t for t in recipe['tps'] if True]
             fc = int(recipe['tps'][int(tid[2:])]['fire_count'])
             exp = len(hits) if fc == -1 else min(len(hits), fc)
@@ -398,6 +409,24 @@ class C15(Prop):
             if got > exp:
                 out.violate('%s: more deferred snapshots than permitted hits' % kind)
                 break
+            # every invocation returns a text of its own ("ret-<function>-<n>-<serial>"): when every entry of the
+            # function opens a snapshot of its own and nothing raises, the captured results, taken together, are exactly
+            # the results of those invocations - one each (a snapshot cannot carry another invocation's result)
+            if kind == 'method_capture' and fc == -1 and not reconf_at and \
+                    not any(f_['raises'] != 'never' or f_['kind'] == 'gen' for f_ in recipe['funcs']):
+                want = sorted(str(inv_result[e.inv][1]) for e in hits if inv_result.get(e.inv, ('', ''))[0] == 'return')
+                have = []
+                for p in pushes:
+                    if p['snap'].tracepoint.id != tid:
+                        continue
+                    for w in p['snap'].watches:
+                        if w.source == 'CAPTURE' and w.result is not None:
+                            have += [t for t in self.texts_below(p['snap'], w.result.vid)[:1]]
+                if len(want) == len(have) and sorted(have) != want and all(h.startswith('ret-') for h in have):
+                    out.violate('method_capture: captured result is not what that invocation returned or raised (recursion, '
+                                'although every level opened a snapshot of its own)', {'captured': sorted(have)[:4],
+                                                                                      'returned': want[:4]})
+                    break
         if leftovers:
             out.violate('work left pending for a thread that has ended', {'threads': leftovers})
         lab.reset_world()
